@@ -92,6 +92,18 @@ Theorem C07_ttf_format4 : forall f pos ecs scs idds idrs d d' c,
   exists segs, segs_of f pos 0 ecs scs idds idrs = Some segs /\ dget d' c = segs_val segs c (dget d c).
 Proof. exact fmt4_segs_spec. Qed.
 
+(* the byte layout: a subtable body written as segCountX2, three search fields, end codes, a reserved word, start
+   codes, deltas, range offsets, glyph arrays (ISO/IEC 14496-22 cmap format 4), anywhere in a program, is taken apart
+   into exactly those four arrays, the range offsets counting from pos = start + 8 + 6 segCount + 2 *)
+Theorem C07_ttf_format4_layout : forall pre x1 x2 x3 pad ecs scs idds idrs tail d,
+  length scs = length ecs -> length idds = length ecs -> length idrs = length ecs ->
+  forallb is_u16 ecs = true -> forallb is_u16 scs = true -> forallb is_u16 idds = true -> forallb is_u16 idrs = true ->
+  2 * Z.of_nat (length ecs) < 65536 ->
+  let f := (pre ++ fmt4_body x1 x2 x3 pad ecs scs idds idrs tail)%list in
+  let p := Z.of_nat (length pre) in
+  fmt4 f p d = fmt4_segs f (p + 8 + 6 * Z.of_nat (length ecs) + 2) 0 ecs scs idds idrs d.
+Proof. exact fmt4_layout. Qed.
+
 (* 16-bit big-endian arrays (end codes, start codes, deltas, range offsets, glyph indices) are read back as written,
    wherever in the program they stand *)
 Theorem C07_ttf_array_read_back : forall pre l post, forallb is_u16 l = true ->
@@ -127,6 +139,7 @@ Print Assumptions C07_vertical_w2.
 Print Assumptions C07_ttf_delta_segment.
 Print Assumptions C07_ttf_range_segment.
 Print Assumptions C07_ttf_format4.
+Print Assumptions C07_ttf_format4_layout.
 Print Assumptions C07_ttf_array_read_back.
 Print Assumptions C07_ttf_inversion_sound.
 Print Assumptions C07_ttf_inversion_complete.
